@@ -19,12 +19,13 @@ def _expected_shank(data, sites, sh):
     return np.ascontiguousarray(data[:, cols])
 
 
-def _compare_split(root, data, sites, seen, ctx, compressed=False):
+def _compare_split(root, data, sites, seen, ctx, compressed=False, apstem=None):
     """every shank folder holds exactly the original samples of its channels followed by the sync channel"""
+    apstem = apstem or (np2.STEM + ".ap")          # name of the AP file without its suffix (the band is read from the metadata, not from the name)
     shanks = sorted({s[0] for s in sites})
     for sh in shanks:
         folder = np2.shank_folder(root, sh)
-        f = os.path.join(folder, np2.STEM + ".ap" + (".cbin" if compressed else ".bin"))
+        f = os.path.join(folder, apstem + (".cbin" if compressed else ".bin"))
         if not os.path.exists(f):
             seen.setdefault("split:missing-file", "%s: %s is missing" % (ctx, f))
             continue
@@ -62,8 +63,9 @@ def _compare_split(root, data, sites, seen, ctx, compressed=False):
             seen.setdefault("split:meta2", "%s: shank %d metadata: NP2.4_shank=%r fileSizeBytes=%r (content %d bytes)" % (ctx, sh, meta.get("NP2.4_shank"), meta.get("fileSizeBytes"), exp.size * 2))
 
 
-def _reconstruct_and_compare(root, orig_sha, orig_meta, seen, ctx, compress=False):
+def _reconstruct_and_compare(root, orig_sha, orig_meta, seen, ctx, compress=False, apstem=None):
     """moves the original away, reconstructs from the shank folders, compares bytes and metadata"""
+    apstem = apstem or (np2.STEM + ".ap")
     pdir = os.path.join(root, np2.LABEL)
     keep = os.path.join(root, "kept_original")
     shutil.rmtree(keep, ignore_errors=True)
@@ -71,7 +73,7 @@ def _reconstruct_and_compare(root, orig_sha, orig_meta, seen, ctx, compress=Fals
     try:
         rec = neuropixel.NP2Reconstructor(root, np2.LABEL, compress=compress)
         status = rec.process()
-        f = os.path.join(pdir, np2.STEM + ".ap" + (".cbin" if compress else ".bin"))
+        f = os.path.join(pdir, apstem + (".cbin" if compress else ".bin"))
         if status != 1 or not os.path.exists(f):
             seen.setdefault("reconstruct:status", "%s: reconstruction returned %r / wrote no %s" % (ctx, status, os.path.basename(f)))
             return
@@ -83,9 +85,9 @@ def _reconstruct_and_compare(root, orig_sha, orig_meta, seen, ctx, compress=Fals
         sha = np2.sha1(f)
         if sha != orig_sha:
             seen.setdefault("reconstruct:bytes", "%s: the reconstructed binary differs from the original (sha1 %s vs %s, %d vs %d bytes)"
-                            % (ctx, sha[:10], orig_sha[:10], os.path.getsize(f), os.path.getsize(os.path.join(keep, np2.STEM + ".ap.bin"))
-                               if os.path.exists(os.path.join(keep, np2.STEM + ".ap.bin")) else -1))
-        m = dict(spikeglx.read_meta_data(os.path.join(pdir, np2.STEM + ".ap.meta")))
+                            % (ctx, sha[:10], orig_sha[:10], os.path.getsize(f), os.path.getsize(os.path.join(keep, apstem + ".bin"))
+                               if os.path.exists(os.path.join(keep, apstem + ".bin")) else -1))
+        m = dict(spikeglx.read_meta_data(os.path.join(pdir, apstem + ".meta")))
         m.pop("original_meta", None)
         o = dict(orig_meta)
         diff = sorted(k for k in set(m) | set(o) if m.get(k) != o.get(k))
@@ -252,18 +254,25 @@ def pattern_check(case):
     # the sampling rate as the metadata carry it: nominal, or calibrated a little above / below (imSampRate), the duration written accordingly
     fs = (30000, 30000.268421, 29999.757983)[PATTERNS.index(pat) % 3]
     ap = np2.make_session(root, "NP2.4", sites, data, fs=fs)
+    apstem = None
+    if PATTERNS.index(pat) % 3 == 1:
+        # a file name that carries the band without the dotted form (the reader takes the band from the metadata): run1_g0_t0_imec0_ap.bin
+        apstem = "run1_g0_t0_imec0_ap"
+        for suf in (".bin", ".meta"):
+            os.rename(str(ap.with_suffix(suf)), os.path.join(os.path.dirname(str(ap)), apstem + suf))
+        ap = ap.with_name(apstem + ".bin")
     orig_sha = np2.sha1(ap)
     orig_meta = spikeglx.read_meta_data(ap.with_suffix(".meta"))
     seen = {}
-    ctx = "recording of %d samples at %r Hz with pattern %s (post_check=%s, window 600)" % (ns, fs, pat, post_check)
+    ctx = "recording %s of %d samples at %r Hz with pattern %s (post_check=%s, window 600)" % (ap.name, ns, fs, pat, post_check)
     try:
         status, conv = np2.convert(ap, nwindow=600, post_check=post_check)
         np2.release(conv)
         if status != 1:
             seen.setdefault("pattern:status", "%s: process() returned %r" % (ctx, status))
         sub = {}
-        _compare_split(root, data, sites, sub, ctx)
-        _reconstruct_and_compare(root, orig_sha, orig_meta, sub, ctx)
+        _compare_split(root, data, sites, sub, ctx, apstem=apstem)
+        _reconstruct_and_compare(root, orig_sha, orig_meta, sub, ctx, apstem=apstem)
         for k, m in sub.items():
             seen.setdefault("pattern:" + k, m)
     except Exception as e:
